@@ -186,6 +186,9 @@ func executeT[T any](t *testing.T, s Script, leakScan bool, budget time.Duration
 			} else if k == 1 || k == 3 {
 				runtime.GC()
 				runtime.GC()
+				for i := 0; i < 2000; i++ {
+					runtime.Gosched() // finalizers run on a goroutine of their own: give it the processor
+				}
 			}
 			v, ok := <-out
 			if !ok {
@@ -450,7 +453,10 @@ func Gen(thorough bool) *rapid.Generator[Script] {
 			}
 		}
 		s.PreStart = rapid.IntRange(0, 2).Draw(t, "prestart") == 0
-		s.DropHandle = rapid.IntRange(0, 63).Draw(t, "drophandle") == 1 // a forced collection costs real time
+		// a forced collection costs real time: about one script in 300 (rapid draws the bit length
+		// uniformly, the top length class of 0..511 holds 256 values)
+		dh := rapid.IntRange(0, 511).Draw(t, "drophandle")
+		s.DropHandle = dh >= 256 && dh < 264
 		s.Elem = rapid.SampledFrom([]string{"", "", "", "", "empty", "wide", "iface"}).Draw(t, "elem")
 		if s.Q <= 1000 && rapid.IntRange(0, 7).Draw(t, "steady") == 0 {
 			// everything up-front, several batches, a consumer that needs a fixed time per element
